@@ -46,11 +46,18 @@ type proxyStub struct {
 	failFrom int // fail every call whose 1-based index is >= failFrom and < failTo (0 = never)
 	failTo   int
 	log      []string
+	slow     atomic.Bool
+	slowLeft atomic.Int32 // only the first five calls are slow: 1.5 s, past the 1 s budget
+	lastCall time.Time
 }
 
 func (p *proxyStub) RoundTrip(req *http.Request) (*http.Response, error) {
+	if p.slow.Load() && !strings.Contains(req.URL.Path, "healthcheck") && p.slowLeft.Add(-1) >= 0 {
+		time.Sleep(300 * time.Millisecond)
+	}
 	p.mu.Lock()
 	p.calls++
+	p.lastCall = time.Now()
 	n := p.calls
 	fail := p.failFrom > 0 && n >= p.failFrom && n < p.failTo
 	if len(p.log) < 200 {
@@ -66,6 +73,12 @@ func (p *proxyStub) RoundTrip(req *http.Request) (*http.Response, error) {
 		code = 500
 	}
 	return &http.Response{StatusCode: code, Status: fmt.Sprintf("%d", code), Body: io.NopCloser(strings.NewReader("ok")), Header: http.Header{}, Request: req}, nil
+}
+
+func (p *proxyStub) quietFor(d time.Duration) bool {
+	p.mu.Lock()
+	defer p.mu.Unlock()
+	return time.Since(p.lastCall) >= d
 }
 
 func (p *proxyStub) arm(from, to int) {
@@ -125,6 +138,7 @@ func TestMain(m *testing.M) {
 	for k, v := range env {
 		os.Setenv(k, v)
 	}
+	os.Setenv("LUNAR_SERVER_TIMEOUT_SEC", "1")
 	engine.Setup()
 	http.DefaultTransport = stub
 	// the manager dials a syslog exporter on 127.0.0.1:5140 and retries for seconds if nobody listens
@@ -451,6 +465,9 @@ type tcase struct {
 	FaultOp  string        `json:"fault_op,omitempty"` // fs.store | fs.remove | fs.walk | proxy
 	FaultAt  int           `json:"fault_at,omitempty"` // 1-based index of the failing call
 	InFlight bool          `json:"probe_during_switch,omitempty"`
+	// SlowProxy: every admin call of this update takes 300 ms of real time, so that the update as a whole outlasts
+	// the gateway's server timeout (LUNAR_SERVER_TIMEOUT_SEC, 1 s in this harness)
+	SlowProxy bool `json:"slow_proxy,omitempty"`
 }
 
 func genCase() *rapid.Generator[tcase] {
@@ -480,6 +497,7 @@ func genCase() *rapid.Generator[tcase] {
 				Text: "path_params:\n  - url: h.com/r/{rid}\n"})
 		}
 		c.Endpoint = rapid.SampledFrom([]string{"/configuration", "/configuration", "/apply_flows"}).Draw(t, "endpoint")
+		c.SlowProxy = rapid.IntRange(0, 29).Draw(t, "slow-proxy") == 17
 		np := rapid.IntRange(0, 3).Draw(t, "npayload")
 		for i := 0; i < np; i++ {
 			idx := rapid.IntRange(0, 3).Draw(t, "fidx")
@@ -743,7 +761,16 @@ func runCase(r *ev.Recorder, c tcase) (nontrivial bool, obs observation, err err
 			}
 		})
 	}
+	stub.slowLeft.Store(5)
+	stub.slow.Store(c.SlowProxy)
 	obs.Status = put(c.Endpoint, c.body())
+	if c.SlowProxy {
+		// whatever still works on the update after the answer has been given comes to rest first
+		stub.slow.Store(false)
+		for k := 0; k < 100 && !stub.quietFor(500*time.Millisecond); k++ {
+			time.Sleep(50 * time.Millisecond)
+		}
+	}
 	verifhook.SetFault(nil)
 	verifhook.SetYield(nil)
 	if c.FaultOp == "proxy" {
